@@ -393,12 +393,9 @@ def _turn3(axis, k):
 
 @st.composite
 def _jitter(draw, dim, big):
-    out = []
-    for _ in range(dim):
-        if draw(st.integers(0, 9)) == 0:
-            out.append(draw(st.sampled_from([-1, 1])) * big)  # farther than the image is wide
-        else:
-            out.append(draw(st.integers(-3, 3)))
+    out = [draw(st.sampled_from([0, 0, 1, -1, 1, -1, 2, -2])) for _ in range(dim)]
+    if draw(st.integers(0, 7)) == 0:  # farther than the image is wide, along one axis
+        out[draw(st.integers(0, dim - 1))] = draw(st.sampled_from([-1, 1])) * big
     return out
 
 
@@ -415,16 +412,15 @@ def warp_cases(draw, families=("identity", "shift", "quarter", "resample"), reps
         h = [hv] * dim
     else:
         h = draw(gens.voxel_sizes(dim, draw(st.sampled_from(["pow2", "generic", "unit"]))))
-    k_src = [draw(st.one_of(st.integers(-20, 20), st.integers(-10**4, 10**4))) if draw(st.booleans())
-             else None for _ in range(dim)]
-    if any(k is None for k in k_src):
-        k_src = None  # default origin
+    k_src = None  # default origin
+    if draw(st.booleans()):
+        k_src = [draw(st.one_of(st.integers(-20, 20), st.integers(-10**4, 10**4))) for _ in range(dim)]
     ratio = [[1, 1]] * dim
     offset = [0] * dim
     dst_shape = list(src_shape)
     if not same_sys:
         dst_shape = draw(gens.shapes(dim, mx))
-        offset = [draw(st.integers(-3, 3)) for _ in range(dim)]
+        offset = [draw(st.sampled_from([0, 0, 1, -1, 2, -2])) for _ in range(dim)]
         if fam in ("resample",) or (fam == "shift" and draw(st.booleans())):
             ratio = [[draw(st.sampled_from([1, 1, 3, 5])), draw(st.sampled_from([1, 1, 2, 3, 4]))]
                      for _ in range(dim)]
@@ -438,7 +434,7 @@ def warp_cases(draw, families=("identity", "shift", "quarter", "resample"), reps
         if dim == 2:
             turns = [draw(st.sampled_from([-1, 1, 2, 3]))]
         else:
-            nnz = draw(st.sampled_from([1, 1, 1, 2, 3]))
+            nnz = draw(st.sampled_from([1, 1, 2, 3]))
             for a in draw(st.permutations([0, 1, 2]))[:nnz]:
                 turns[a] = draw(st.sampled_from([-1, 1, 2, 3]))
     jitter = [0] * dim if fam in ("identity", "resample") and draw(st.booleans()) else \
@@ -633,7 +629,7 @@ def _warp_labels(case, n_valid, n_total):
     if any(r != [1, 1] for r in case["ratio"]):
         lab.append("different-voxel-size")
     lab.append("all-outside" if n_valid == 0 else ("all-inside" if n_valid == n_total else "partly-outside"))
-    if any(abs(j) > 3 for j in case["jitter"]):
+    if any(abs(j) > 2 for j in case["jitter"]):
         lab.append("shift-larger-than-image")
     return tuple(lab)
 
@@ -641,7 +637,7 @@ def _warp_labels(case, n_valid, n_total):
 def _warp_nontrivial(case, n_valid):
     nnz = sum(1 for k in case["turns"] if k % 4 != 0)
     if n_valid == 0:
-        return any(abs(j) > 3 for j in case["jitter"])  # shift beyond the image: all zeros expected
+        return any(abs(j) > 2 for j in case["jitter"])  # shift beyond the image: all zeros expected
     return ((case["dim"] == 3 and nnz >= 2) or any(j != 0 for j in case["jitter"])
             or (nnz >= 1 and len(set(case["src_shape"])) > 1)
             or not _warp_tags(case)["same_system"])
@@ -704,10 +700,9 @@ def check_warp_exact(case):
     tc = darsia.TransformationCorrection(src.coordinatesystem, host.coordinatesystem, T)
     arr = src.img.copy()
     want, n_valid = _apply_model(arr, V, Vs, case["src_shape"], case["dst_shape"])
-    series_array = case["form"] == "array" and "series" in case["payload"]
 
     def run(image, a):
-        if case["form"] == "array" and not series_array:
+        if case["form"] == "array":
             return tc(a.copy())
         return tc(image).img
 
@@ -734,10 +729,10 @@ def check_warp_exact(case):
 def gen_warp_generic(tier):
     @st.composite
     def strat(draw):
-        dim = draw(st.sampled_from([2, 2, 3]))
+        dim = draw(st.sampled_from([2, 3]))
         mx = {2: 10, 3: 5}[dim]
         nang = 1 if dim == 2 else 3
-        nnz = 1 if dim == 2 else draw(st.sampled_from([1, 2, 3]))
+        nnz = 1 if dim == 2 else draw(st.sampled_from([1, 2, 2, 3]))
         angles = [0.0] * nang
         for a in draw(st.permutations(list(range(nang))))[:nnz]:
             angles[a] = draw(st.floats(-3.1, 3.1).filter(lambda z: abs(z) > 1e-2))
@@ -816,7 +811,7 @@ def check_warp_generic(case):
     bad = (got != want).reshape(-1)[np.ravel_multi_index(tuple(V[:, m] for m in range(dim)), D)] & sure
     if bad.any():
         i = int(np.flatnonzero(bad)[0])
-        raise Violation(f"warp-generic:dim{dim}:{tags['angles']}:{rep}",
+        raise Violation(f"warp-generic:dim{dim}:{tags['angles']}",
                         f"destination voxel {V[i].tolist()}: centre pulled back to source position "
                         f"{U[i].tolist()} (voxel units), i.e. voxel {Vs[i].tolist()} -> expected "
                         f"{want[tuple(V[i])]!r}, got {got[tuple(V[i])]!r}; {int(bad.sum())} voxels differ "
@@ -835,12 +830,17 @@ def check_warp_generic(case):
 def gen_metadata(tier):
     @st.composite
     def strat(draw):
-        case = draw(warp_cases(families=("identity", "shift", "quarter", "resample"),
-                               reps=("coordinate", "center", "voxel")))
-        if case["family"] == "quarter" and case["rep"] == "voxel":
-            case["rep"] = "center"  # voxel-typed rotations are exercised (and routed) in warp_exact
+        case = draw(warp_cases())
         case["form"] = "image"
-        case["fit_isometry"] = draw(st.booleans())
+        case["fit_isometry"] = draw(st.sampled_from([False, False, True]))
+        case["fit_pts"] = case["rep"]
+        if case["fit_isometry"]:
+            # documented: with the isometry option the map operates on coordinates (of voxel
+            # centres), whatever voxel-type the points are handed over in
+            case["fit_pts"] = draw(st.sampled_from(["voxel", "center"]))
+            case["rep"] = "coordinate"
+        if case["family"] == "quarter" and case["rep"] == "voxel":
+            case["rep"] = case["fit_pts"] = "center"  # voxel-typed rotations: see warp_exact
         return case
 
     return strat()
@@ -850,37 +850,25 @@ def check_metadata_labelled(case):
     dim = case["dim"]
     tags, g, spec, src, host, _ = _setup_warp(case)
     rep = case["rep"]
-    if case["fit_isometry"]:
-        rep = "coordinate"  # documented: the isometry option makes the map act on coordinates
-        case = dict(case, rep=rep)
-        if case["family"] in ("shift", "identity", "resample") and False:
-            pass
-    # built normally: the constructor fits the identity from three coincident point pairs
-    S = case["src_shape"]
+    # built normally: the constructor fits (capped at one Powell sweep; whatever it finds is
+    # overwritten below through the public affine_correction.transformation)
     base = np.array([[0] * dim, [1] + [0] * (dim - 1), [0] * (dim - 1) + [1], [1] * dim], dtype=float)
-    if case.get("fit_isometry"):
-        pts = darsia.VoxelArray(base)
-        opts = {"isometry": True}
-    else:
-        pts = ARRAY[rep](base)
-        opts = {}
-    # the fit of the constructor needs source and destination points in their own system;
-    # identical point sets in index space are an exact identity for voxel-typed maps and a
-    # pure translation / rescaling for coordinates: whatever it finds is overwritten below
-    if rep == "coordinate" and not case.get("fit_isometry"):
+    if case["fit_pts"] == "coordinate":
         pts_src = src.coordinatesystem.coordinate(base)
-        pts_dst = darsia.CoordinateArray(np.asarray(pts_src).copy())
+        pts_dst = host.coordinatesystem.coordinate(base)
     else:
-        pts_src, pts_dst = pts, ARRAY["voxel" if case.get("fit_isometry") else rep](base)
+        pts_src, pts_dst = ARRAY[case["fit_pts"]](base), ARRAY[case["fit_pts"]](base)
+    opts = {"maxiter": 1, "isometry": bool(case["fit_isometry"])}
     ct = darsia.CoordinateTransformation(src.coordinatesystem, host.coordinatesystem, pts_src,
                                          pts_dst, fit_options=opts)
     T = ct.affine_correction.transformation
     if T.input_dtype is not SINGLE[rep] or T.output_dtype is not SINGLE[rep]:
         raise Violation("fit-io-type", f"transformation I/O types {T.input_dtype.__name__}/"
-                        f"{T.output_dtype.__name__} for {rep} points (isometry={case['fit_isometry']})",
-                        tags)
+                        f"{T.output_dtype.__name__} for {case['fit_pts']} points "
+                        f"(isometry={case['fit_isometry']})", tags)
     tags = _warp_tags(case)
-    V, Vs = _set_exact(T, case, g, tags)
+    # every parameter is overwritten (the fit may have left any rotation / scaling behind)
+    V, Vs = _set_exact(T, dict(case, zero_rotation_set=True), g, tags)
     before = gens.snapshot(src)
     out = ct(src)
     after = gens.snapshot(src)
